@@ -38,10 +38,12 @@ CLAIMED = {
             "the generated cursor arithmetic refines the double-ended iterator over 0..COUNT-1 and never panics. Tied by state-cover + exhaustive short "
             "+ random histories in dev AND release builds under catch_unwind. Send + Sync is a compile-time assertion (compile check, not proof).",
             "Modelled: usize arithmetic (checked / wrapping / saturating), std's default nth_back / skip / step_by / cycle.", TECH, "DESIGN.md §7 C05"),
-    "C06": ("Theorems C06_iff / C06_none / C06_roundtrip / C06_const / C06_total (Props/C06.v) hold for EVERY enum definition on which "
+    "C06": ("Theorems C06_iff / C06_none / C06_roundtrip / C06_const / C06_total / C06_program / C06_program_complete (Props/C06.v) hold for EVERY enum definition on which "
             "the FromRepr generator model succeeds and every integer x: from_repr(x) = Some(V, defaults) iff V is enabled and x is the "
             "discriminant rustc assigns to V (rule over all declared variants). " + TIE +
-            "~1000 generated enums are compared on every value of 8/16-bit discriminant types and on boundary/random values of wider ones.",
+            "~1000 generated enums are compared on every value of 8/16-bit discriminant types and on boundary/random values of wider ones; the "
+            "body of from_repr is also read from the REAL rustc expansion of the corpus crate into the deep-embedded program of Model/ReprProg.v "
+            "(constant chain + guarded arms) and compared with the program the model emits, which C06_program proves equal to run_from_repr.",
             "Modelled, not verified: rustc's discriminant assignment (rustc_discr, tied by `as` casts), const-evaluability (tied by a "
             "const item), generics/trait dispatch (decided by rustc on the corpus).", TECH, "DESIGN.md §7 C06"),
     "C07": ("C07_words_spec / C07_style / C07_camel_is_mixed / C07_table / C07_lower_upper / C07_uniform / C07_explicit_not_recased: heck's word "
@@ -76,7 +78,8 @@ CLAIMED = {
             "message, detailed_message (falling back to message), doc text (one leading space stripped per line; one line as is, several newline-"
             "terminated) and spellings; None for disabled variants — for every definition. " + TIE, "Zero-variant enums excluded (no value exists).", TECH, "DESIGN.md §7 C14"),
     "C15": ("C15_get / C15_get_str_iff / C15_merge_groups: get_str / get_int / get_bool return the first declared value of that type for the key among "
-            "all props(..) groups of the variant, None otherwise and for disabled variants — for every definition and key. " + TIE,
+            "all props(..) groups of the variant, None otherwise and for disabled variants — for every definition and key. " + TIE +
+            "The three real getters are also read token by token into the model's tables (variant -> [(key, value)] + wildcards) and compared.",
             "Property values are string / integer / boolean literals.", TECH, "DESIGN.md §7 C15"),
     "C16": ("C16_equiv / C16_accepts / C16_keys_distinct: adding use_phf never makes the generator fail, never emits duplicate phf keys, and for "
             "non-overlapping definitions the phf-backed parser equals the plain one on EVERY input. Every corpus definition is built twice (with / "
